@@ -129,17 +129,30 @@ func tunnelBackend(bc *sys.BackendConn) {
 }
 
 func TestC47(t *testing.T) {
-	rec := ev.New("C47", "WebSocket upgrades over http and https and TLS-offload stream connections (std crypto/tls client, ALPN stream) through an in-process BFE to a raw harness backend; generated payload chunk plans in both directions (1 B..128 KiB, early client bytes in the same write as the upgrade request, early backend bytes in the same write as the 101 response), close initiator client|backend, graceful (after receiving everything) or abrupt (right after its last write). Oracle: the closer's stream arrives complete and unchanged, the other direction complete (graceful) or as a prefix (abrupt), and the non-closing side sees EOF. non-trivial: early coalesced bytes or both directions carry data; distinct by mode+plan")
+	rec := ev.New("C47", "WebSocket upgrades over http and https and TLS-offload stream connections (std crypto/tls client, ALPN stream) through an in-process BFE to a raw harness backend; generated payload chunk plans in both directions (1 B..128 KiB, early client bytes in the same write as the upgrade request, TLS handshakes full / resumed by session ticket / resumed with the first client bytes in the same TCP segment as the client's Finished, early backend bytes in the same write as the 101 response), an idle period longer than ClientReadTimeout inside the tunnel, close initiator client|backend, graceful (after receiving everything) or abrupt (right after its last write). Oracle: the closer's stream arrives complete and unchanged, the other direction complete (graceful) or as a prefix (abrupt), and the non-closing side sees EOF. non-trivial: early coalesced bytes or both directions carry data; distinct by mode+plan")
 	tb, err := sys.NewBackend("tun", tunnelBackend)
 	if err != nil {
 		t.Fatal(err)
 	}
 	d := sys.SimpleConf("v0", []sys.Cluster{sys.OneBackendCluster("c", tb.Port)}, nil)
 	d.DefaultProduct = "p"
-	rig, err := sys.Start(sys.Options{Data: d, NextProtos: []string{"stream", "http/1.1"}})
+	rig, err := sys.Start(sys.Options{Data: d, NextProtos: []string{"stream", "http/1.1"}, SessionTickets: true, ClientReadTimeout: 2})
+	sessCache := map[string]tls.ClientSessionCache{"wss": tls.NewLRUClientSessionCache(4), "stream": tls.NewLRUClientSessionCache(4)}
 	if err != nil {
 		t.Fatal(err)
 	}
+	// obtain a session ticket per TLS mode once (no tunnel script is installed yet, the backend
+	// just closes); later cases resume from these caches
+	for mode, proto := range map[string]string{"wss": "http/1.1", "stream": "stream"} {
+		pc, err := tls.DialWithDialer(&net.Dialer{Timeout: 5 * time.Second}, "tcp", rig.HTTPSAddr, &tls.Config{InsecureSkipVerify: true, ServerName: "example.org",
+			NextProtos: []string{proto}, MinVersion: tls.VersionTLS12, MaxVersion: tls.VersionTLS12, ClientSessionCache: sessCache[mode]})
+		if err != nil {
+			t.Fatalf("rig: priming handshake: %v", err)
+		}
+		pc.Close()
+	}
+	time.Sleep(100 * time.Millisecond)
+	tb.Reset()
 	n := 0
 	rapid.Check(t, func(rt *rapid.T) {
 		n++
@@ -156,6 +169,12 @@ func TestC47(t *testing.T) {
 		c2b := plan("c2b")
 		b2c := plan("b2c")
 		earlyC := rapid.Bool().Draw(rt, "early-client") && len(c2b) > 0
+		// one case in eight keeps the established tunnel idle beyond ClientReadTimeout before the last client chunk
+		idleGap := rapid.IntRange(0, 7).Draw(rt, "idle-gap") == 0 && len(c2b) > 1
+		tlsShape := "full"
+		if mode != "ws" {
+			tlsShape = rapid.SampledFrom([]string{"full", "resumed", "resumed-coalesced"}).Draw(rt, "tls-handshake")
+		}
 		backendCloses := rapid.Bool().Draw(rt, "backend-closes")
 		graceful := rapid.Bool().Draw(rt, "graceful")
 		var c2bAll, b2cAll []byte
@@ -170,19 +189,43 @@ func TestC47(t *testing.T) {
 		tunCur = s
 		tunMu.Unlock()
 		nontrivial := earlyC || (len(c2bAll) > 0 && len(b2cAll) > 0) || (mode != "stream" && len(b2c) > 0)
-		shape := fmt.Sprintf("%s c2b=%v b2c=%v early=%v closer=%v graceful=%v", mode, lens(c2b), lens(b2c), earlyC, map[bool]string{true: "backend", false: "client"}[backendCloses], graceful)
-		rec.Case(shape+fmt.Sprint(len(c2bAll)^len(b2cAll)<<7), nontrivial, "mode:"+mode, fmt.Sprintf("closer-backend:%v", backendCloses), fmt.Sprintf("graceful:%v", graceful), fmt.Sprintf("early-client:%v", earlyC))
+		shape := fmt.Sprintf("%s/%s c2b=%v b2c=%v early=%v closer=%v graceful=%v", mode, tlsShape, lens(c2b), lens(b2c), earlyC, map[bool]string{true: "backend", false: "client"}[backendCloses], graceful)
+		rec.Case(shape+fmt.Sprint(len(c2bAll)^len(b2cAll)<<7), nontrivial, "mode:"+mode, fmt.Sprintf("closer-backend:%v", backendCloses), fmt.Sprintf("graceful:%v", graceful), fmt.Sprintf("early-client:%v", earlyC), "tls-handshake:"+tlsShape, fmt.Sprintf("idle-beyond-read-timeout:%v", idleGap))
 		rec.Sample(map[string]any{"shape": shape})
 		wit := map[string]any{"shape": shape}
 
 		var c net.Conn
+		var cc *coalesceConn
 		switch mode {
 		case "ws":
 			c, err = rig.Dial()
-		case "wss":
-			c, err = sys.DialTLS(rig.HTTPSAddr, []string{"http/1.1"}, tls.VersionTLS12, tls.VersionTLS12)
-		case "stream":
-			c, err = sys.DialTLS(rig.HTTPSAddr, []string{"stream"}, tls.VersionTLS12, tls.VersionTLS12)
+		default:
+			proto := map[string]string{"wss": "http/1.1", "stream": "stream"}[mode]
+			cfg := &tls.Config{InsecureSkipVerify: true, ServerName: "example.org", NextProtos: []string{proto}, MinVersion: tls.VersionTLS12, MaxVersion: tls.VersionTLS12,
+				ClientSessionCache: sessCache[mode]}
+			if tlsShape == "full" {
+				cfg.ClientSessionCache = nil
+			}
+			var raw net.Conn
+			raw, err = net.DialTimeout("tcp", rig.HTTPSAddr, 5*time.Second)
+			if err == nil {
+				cc = &coalesceConn{Conn: raw, hold: tlsShape == "resumed-coalesced"}
+				tc := tls.Client(cc, cfg)
+				tc.SetDeadline(time.Now().Add(10 * time.Second))
+				if err = tc.Handshake(); err != nil {
+					raw.Close()
+				} else {
+					tc.SetDeadline(time.Time{})
+					c = tc
+				}
+			}
+			if err == nil {
+				if c.(*tls.Conn).ConnectionState().DidResume {
+					rec.Class("tls-resumed")
+				} else if tlsShape != "full" {
+					rec.Class("tls-resumption-not-offered-or-refused")
+				}
+			}
 		}
 		if err != nil {
 			rt.Fatalf("rig: dial %s: %v", mode, err)
@@ -197,6 +240,20 @@ func TestC47(t *testing.T) {
 				rest = c2b[1:]
 			}
 		}
+		if cc != nil && cc.hold {
+			// resumed handshake: the client speaks last, its Finished is still in our write buffer.
+			// Put the first client bytes behind it and send both in one TCP segment.
+			if len(first) > 0 {
+				c.Write(first)
+				first = nil
+			} else if len(rest) > 0 {
+				c.Write(rest[0])
+				rest = rest[1:]
+			}
+			if n := cc.release(); n > 0 {
+				rec.Class("first-bytes-coalesced-with-finished")
+			}
+		}
 		var wg sync.WaitGroup
 		wg.Add(1)
 		go func() {
@@ -206,7 +263,11 @@ func TestC47(t *testing.T) {
 					return
 				}
 			}
-			for _, ch := range rest {
+			for i, ch := range rest {
+				if idleGap && i == len(rest)-1 {
+					// the tunnel sits idle for longer than the server's ClientReadTimeout (2 s here)
+					time.Sleep(2600 * time.Millisecond)
+				}
 				if _, err := c.Write(ch); err != nil {
 					return
 				}
@@ -357,4 +418,46 @@ func firstDiff(a, b []byte) int {
 		}
 	}
 	return n
+}
+
+// coalesceConn delays writes while hold is set (they go out with the next Read or release),
+// so that consecutive TLS flights and records leave in one TCP segment.
+type coalesceConn struct {
+	net.Conn
+	mu   sync.Mutex
+	buf  []byte
+	hold bool
+}
+
+func (c *coalesceConn) Write(p []byte) (int, error) {
+	c.mu.Lock()
+	defer c.mu.Unlock()
+	if c.hold {
+		c.buf = append(c.buf, p...)
+		return len(p), nil
+	}
+	return c.Conn.Write(p)
+}
+
+func (c *coalesceConn) flush() int {
+	c.mu.Lock()
+	b := c.buf
+	c.buf = nil
+	c.mu.Unlock()
+	if len(b) > 0 {
+		c.Conn.Write(b)
+	}
+	return len(b)
+}
+
+func (c *coalesceConn) Read(p []byte) (int, error) {
+	c.flush()
+	return c.Conn.Read(p)
+}
+
+func (c *coalesceConn) release() int {
+	c.mu.Lock()
+	c.hold = false
+	c.mu.Unlock()
+	return c.flush()
 }
